@@ -6,6 +6,7 @@ from symx import is_sym, And, Or
 import coba.environments.filters as ef
 from coba.environments.filters import Repr, Flatten, Sparsify, Densify, Noise, Batch, Finalize, Unbatch
 from coba.environments import Environments
+from coba.pipes.rows import HeadDense
 from coba.primitives import Categorical, BinaryReward, DiscreteReward, HammingReward, L1Reward, is_batch
 
 EXPLANATION = ("Chains of the real representation filters (Repr, Flatten, Sparsify, Densify, Noise on actions, Batch, Finalize and the Environments shortcuts) "
@@ -27,6 +28,7 @@ ACTION_KINDS = {
     'nested': lambda: [((1,2),3),((4,5),6),((7,8),9)],
     'sparse': lambda: [{'a':1},{'b':2},{'a':3,'c':4}],
     'densecat': lambda: [(Categorical('u',LEVELS),1),(Categorical('v',LEVELS),2),(Categorical('w',LEVELS),3)],
+    'head':   lambda: [HeadDense([1,0,5],{'x':0,'y':1,'z':2}), HeadDense([0,1,5],{'x':0,'y':1,'z':2}), HeadDense([2,2,5],{'x':0,'y':1,'z':2})],   # dense rows carrying header names (as LazyDense/HeadRows produce)
 }
 FILTERS = {
     'repr_onehot':   lambda: Repr('onehot','onehot'),
@@ -86,13 +88,14 @@ def unbatch(inter):
         else: out.append(d)
     return out
 
-@obligation('C10','rewards_follow_actions', bounds={'quick':"2 interactions (equal action sets, or the first one reversed with one action fewer) x 3 actions of 7 kinds; rewards as list / BinaryReward(value k/4) / DiscreteReward / callable / L1Reward (numeric actions); optional logged action+reward+probability; every single filter of 13 configurations and 11 two-filter chains",
+@obligation('C10','rewards_follow_actions', bounds={'quick':"2 interactions (equal action sets, or the first one reversed with one action fewer) x 3 actions of 8 kinds (incl. header-carrying dense rows); optional IGL feedbacks as list or callable; rewards as list / BinaryReward(value k/4) / DiscreteReward / callable / L1Reward (numeric actions); optional logged action+reward+probability; every single filter of 13 configurations and 11 two-filter chains",
                                                    'thorough':"all ordered pairs of the 13 filter configurations"},
             functions=FUNCS, params=params, classify=_classify, budget={'quick':80,'thorough':1500})
 def rewards_follow_actions(sym, chain, ak):
     rk = sym.choice('rk', ['list','binary','discrete','lambda'] + (['l1'] if ak == 'int' else []))
     same = sym.flag('same_actions')
     logged = sym.flag('logged')
+    fbk = sym.choice('feedbacks', ['none','list','callable'])        # IGL feedback next to the rewards
     sym.note(chain='>'.join(chain), ak=ak, rk=rk)
     base = ACTION_KINDS[ak]()
     inter, orig = [], []
@@ -102,8 +105,11 @@ def rewards_follow_actions(sym, chain, ak):
         d = {'context': (Categorical('u',LEVELS), 1.5) if i == 0 else (Categorical('w',LEVELS), 2.5), 'actions': acts, 'rewards': make_rewards(sym, rk, acts, vals, i)}
         if logged:
             d['action'] = acts[(i+1) % len(acts)]; d['reward'] = sym.real(f'lr{i}', -1, 2, denom=4); d['probability'] = sym.real(f'lp{i}', 0.25, 1, denom=4)
+        fvals = [sym.real(f'f{i}_{k}', 0, 1, denom=2) for k in range(len(acts))]
+        if fbk == 'list': d['feedbacks'] = list(fvals)
+        elif fbk == 'callable': d['feedbacks'] = (lambda a, acts=list(acts), vs=list(fvals): next(v for x,v in zip(acts,vs) if x == a))
         exp = [call(d['rewards'], acts, k) for k in range(len(acts))]
-        orig.append(dict(actions=list(acts), exp=exp, idx=(i+1) % len(acts), reward=d.get('reward'), prob=d.get('probability')))
+        orig.append(dict(actions=list(acts), exp=exp, fexp=list(fvals), idx=(i+1) % len(acts), reward=d.get('reward'), prob=d.get('probability')))
         inter.append(d)
     out = inter
     for f in chain:
@@ -119,6 +125,10 @@ def rewards_follow_actions(sym, chain, ak):
             except Exception as e:
                 sym.fail(f"raise: reward look-up of action {k} raised {type(e).__name__}: {e}")
             sym.check(got == g['exp'][k], f"reward: interaction {i}, action {k} earns a different reward after the chain")
+            if fbk != 'none':
+                try: gotf = call(o['feedbacks'], acts, k)
+                except Exception as e: sym.fail(f"raise: feedback look-up of action {k} raised {type(e).__name__}: {e}")
+                sym.check(gotf == g['fexp'][k], f"feedback: interaction {i}, action {k} receives a different feedback after the chain")
         if logged:
             hits = [k for k,a in enumerate(acts) if a == o['action'] or a is o['action']]
             sym.check(g['idx'] in hits, f"logged: interaction {i}: logged action {o['action']!r} is not the member at its old position {g['idx']} of {acts!r}")
